@@ -95,7 +95,15 @@ structure EnvOK : Prop where
 /-- representative `t` has been discovered: `repfnz[t] != EMPTY` -/
 def disc (st : St) (t : Int) : Prop := rd st.repfnz t ≠ EMPTY
 
+/-- the rows appended to `lsub` so far (`lsub[nextl0 .. nextl)`): distinct, unpivoted, marked; room for the rest -/
+structure AppOK (st : St) : Prop where
+  n0 : 0 ≤ nextl0
+  nodup : (slice st.lsub nextl0 st.nextl).Nodup
+  rows : ∀ r ∈ slice st.lsub nextl0 st.nextl, 0 ≤ r ∧ r < e.m ∧ rd e.perm_r r = EMPTY ∧ mk2 e st r = e.jcol
+  cap : nextl0 + (unpivoted e.m e.perm_r).length ≤ st.lsub.size
+
 structure StOK (st : St) : Prop where
+  app : AppOK e nextl0 st
   pre : ∀ x, 0 ≤ x → x < nextl0 → rd st.lsub x = rd L x
   nextl : nextl0 ≤ st.nextl
   szRep : e.jcol ≤ st.repfnz.size
@@ -117,10 +125,33 @@ theorem mk2_mark_ne {st : St} {row r : Int} (h : r ≠ row) :
     mk2 e { st with marker := wr st.marker (2 * e.m + row) e.jcol } r = mk2 e st r := by
   unfold mk2; exact rd_wr_ne (by omega)
 
+theorem AppOK.congr {st st' : St} (h : AppOK e nextl0 st) (h1 : st'.lsub = st.lsub) (h2 : st'.nextl = st.nextl)
+    (h3 : ∀ r, mk2 e st r = e.jcol → mk2 e st' r = e.jcol) : AppOK e nextl0 st' :=
+  ⟨h.n0, by rw [h1, h2]; exact h.nodup,
+   fun r hr => by
+    rw [h1, h2] at hr
+    obtain ⟨a, b, c, d⟩ := h.rows r hr
+    exact ⟨a, b, c, h3 r d⟩,
+   by rw [h1]; exact h.cap⟩
+
+theorem mk2_mark_mono {st : St} {row r : Int} (h : mk2 e st r = e.jcol) :
+    mk2 e { st with marker := wr st.marker (2 * e.m + row) e.jcol } r = e.jcol := by
+  by_cases hr : r = row
+  · subst hr
+    unfold mk2 at h ⊢
+    rcases rd_wr_self_or st.marker (2 * e.m + r) e.jcol with h' | h'
+    · exact h'
+    · exact h'.trans h
+  · rw [mk2_mark_ne hr]; exact h
+
+theorem slice_length (a : Array Int) (lo hi : Int) : (slice a lo hi).length = (hi - lo).toNat := by
+  simp [slice]
+
 /-- marking a row whose representative (if it is pivoted) is discovered -/
 theorem StOK.mark {st : St} (h : StOK e L nextl0 st) (row : Int)
     (hr : rd e.perm_r row ≠ EMPTY → disc st (repOf e (rd e.perm_r row))) :
     StOK e L nextl0 { st with marker := wr st.marker (2 * e.m + row) e.jcol } where
+  app := h.app.congr rfl rfl (fun _ hr => mk2_mark_mono hr)
   pre := h.pre
   nextl := h.nextl
   szRep := h.szRep
@@ -134,19 +165,57 @@ theorem StOK.mark {st : St} (h : StOK e L nextl0 st) (row : Int)
     · subst hrr; exact hr hp
     · rw [mk2_mark_ne hrr] at hm; exact h.markRep r r0 r1 hm hp
 
-theorem StOK.append {st : St} (h : StOK e L nextl0 st) (row mark : Int) :
+theorem StOK.append {st : St} (h : StOK e L nextl0 st) (row mark : Int) (hr0 : 0 ≤ row) (hr1 : row < e.m)
+    (hun : rd e.perm_r row = EMPTY) (hmk : mk2 e st row = e.jcol) (hnot : row ∉ slice st.lsub nextl0 st.nextl) :
     StOK e L nextl0 (appendRow e st row mark) := by
+  have n0 := h.app.n0
+  have hle := h.nextl
+  have hnd : (slice st.lsub nextl0 st.nextl ++ [row]).Nodup := by
+    rw [nodup_append]
+    exact ⟨h.app.nodup, by simp, fun a ha b hb => by
+      rw [mem_singleton] at hb; subst hb; intro hab; subst hab; exact hnot ha⟩
+  have hall : ∀ r ∈ slice st.lsub nextl0 st.nextl ++ [row], 0 ≤ r ∧ r < e.m ∧ rd e.perm_r r = EMPTY ∧ mk2 e st r = e.jcol := by
+    intro r hr
+    rcases mem_append.mp hr with hr | hr
+    · exact h.app.rows r hr
+    · rw [mem_singleton] at hr; subst hr; exact ⟨hr0, hr1, hun, hmk⟩
+  have hroom : st.nextl < st.lsub.size := by
+    have h1 : ((slice st.lsub nextl0 st.nextl ++ [row]).map Int.toNat).Nodup := by
+      refine Nodup.map_on ?_ hnd
+      intro a ha b hb hab
+      have := (hall a ha).1; have := (hall b hb).1; omega
+    have h2 : (slice st.lsub nextl0 st.nextl ++ [row]).map Int.toNat ⊆ unpivoted e.m e.perm_r := by
+      intro t ht
+      obtain ⟨r, hr, rfl⟩ := mem_map.mp ht
+      obtain ⟨a, b, c, _⟩ := hall r hr
+      unfold unpivoted
+      simp only [mem_filter, mem_range, decide_eq_true_eq]
+      exact ⟨by omega, by rw [Int.toNat_of_nonneg a]; exact c⟩
+    have h3 := (List.subperm_of_subset h1 h2).length_le
+    rw [length_map, length_append, slice_length] at h3
+    have := h.app.cap
+    simp at h3
+    omega
+  have hsl : slice (wr st.lsub st.nextl row) nextl0 (st.nextl + 1) = slice st.lsub nextl0 st.nextl ++ [row] := by
+    rw [slice_snoc _ n0 hle, rd_wr_eq (by omega) hroom]
+    congr 1
+    exact slice_congr n0 (fun y _ hy => rd_wr_ne (by omega))
   have key : StOK e L nextl0 { st with lsub := wr st.lsub st.nextl row, nextl := st.nextl + 1 } :=
-    { pre := fun x x0 x1 => by
-        have : x ≠ st.nextl := by have := h.nextl; omega
+    { app := ⟨n0, by show (slice (wr st.lsub st.nextl row) nextl0 (st.nextl + 1)).Nodup; rw [hsl]; exact hnd,
+        fun r hr => by
+          have hr' : r ∈ slice (wr st.lsub st.nextl row) nextl0 (st.nextl + 1) := hr
+          rw [hsl] at hr'; exact hall r hr',
+        by show nextl0 + _ ≤ ((wr st.lsub st.nextl row).size : Int); rw [size_wr]; exact h.app.cap⟩
+      pre := fun x x0 x1 => by
+        have : x ≠ st.nextl := by omega
         show rd (wr st.lsub st.nextl row) x = rd L x
         rw [rd_wr_ne this]; exact h.pre x x0 x1
-      nextl := by have := h.nextl; show nextl0 ≤ st.nextl + 1; omega
+      nextl := by show nextl0 ≤ st.nextl + 1; omega
       szRep := h.szRep, szPar := h.szPar, szXpl := h.szXpl, szMark := h.szMark, nseg0 := h.nseg0
       markRep := h.markRep }
   unfold appendRow
   split
-  · exact { key with }
+  · exact { key with app := key.app.congr rfl rfl (fun _ hh => hh) }
   · exact key
 
 theorem disc_wr {a : Array Int} {i v : Int} (hv : v ≠ EMPTY) (hi : rd a i ≠ EMPTY) (t : Int) :
@@ -170,7 +239,8 @@ theorem StOK.lower {st : St} (h : StOK e L nextl0 st) {rep myfnz kp : Int} (hkp 
   split
   · rename_i hlt
     simp only [hlt, if_true] at hi
-    exact { pre := h.pre, nextl := h.nextl, szRep := by simpa [size_wr] using h.szRep, szPar := h.szPar, szXpl := h.szXpl,
+    exact { app := h.app.congr rfl rfl (fun _ hh => hh),
+            pre := h.pre, nextl := h.nextl, szRep := by simpa [size_wr] using h.szRep, szPar := h.szPar, szXpl := h.szXpl,
             szMark := h.szMark, nseg0 := h.nseg0,
             markRep := fun r r0 r1 hm hp => (hi _).mpr (h.markRep r r0 r1 hm hp) }
   · exact h
@@ -367,7 +437,9 @@ theorem scan_rows (hE : EnvOK e L nextl0) {adj : Nat → List Nat}
         intro h; rw [h, hE1] at hlt; omega
     · by_cases hkp : rd e.perm_r (rd L x) = EMPTY
       · -- (B) unpivoted row: appended
-        refine cont _ ⟨?_, ?_, ?_, ?_, ?_⟩ ((hst.mark (rd L x) (fun h => absurd hkp h)).append (rd L x) (mk2 e st (rd L x))) ?_ ?_
+        refine cont _ ⟨?_, ?_, ?_, ?_, ?_⟩ ((hst.mark (rd L x) (fun h => absurd hkp h)).append (rd L x) (mk2 e st (rd L x)) hr0 hr1 hkp
+          (by unfold mk2; exact rd_wr_eq (by have := hE.m0; omega) (by have := hst.szMark; omega))
+          (fun hin => hmk (hst.app.rows _ hin).2.2.2)) ?_ ?_
         · unfold appendRow; split <;> rfl
         · unfold appendRow; split <;> rfl
         · unfold appendRow; split <;> rfl
@@ -431,7 +503,10 @@ theorem scan_rows (hE : EnvOK e L nextl0) {adj : Nat → List Nat}
             · exact Or.inl h
             · right; unfold disc at ht ⊢; rwa [e_rep, rd_wr_ne h] at ht
           have hst1 : StOK e L nextl0 st1 :=
-            { pre := by rw [e_lsub]; exact hst.pre
+            { app := hst.app.congr e_lsub e_nextl (fun r hr => by
+                have := mk2_mark_mono (row := rd L x) hr
+                unfold mk2 at this ⊢; rw [e_mark]; exact this)
+              pre := by rw [e_lsub]; exact hst.pre
               nextl := by rw [e_nextl]; exact hst.nextl
               szRep := by rw [e_rep, size_wr]; exact hst.szRep
               szPar := by rw [e_par, size_wr]; exact hst.szPar
@@ -497,7 +572,7 @@ theorem scan_rows (hE : EnvOK e L nextl0) {adj : Nat → List Nat}
           have hd3 : ∀ t, disc st3 t ↔ disc st2 t := fun t => by unfold disc; rw [e3_rep]
           have hst3 : StOK e L nextl0 st3 := by
             rw [← hst3def]
-            exact { pre := hres2.ok.pre, nextl := hres2.ok.nextl, szRep := hres2.ok.szRep, szPar := hres2.ok.szPar,
+            exact { app := hres2.ok.app.congr rfl rfl (fun _ hh => hh), pre := hres2.ok.pre, nextl := hres2.ok.nextl, szRep := hres2.ok.szRep, szPar := hres2.ok.szPar,
                     szXpl := hres2.ok.szXpl, szMark := hres2.ok.szMark, markRep := hres2.ok.markRep,
                     nseg0 := by have := hres2.ok.nseg0; show 0 ≤ st2.nseg + 1; omega }
           have hpo3 : PostOK e (c :: post2) st3 :=
@@ -686,7 +761,9 @@ theorem rootStep_spec (hE : EnvOK e L nextl0) {adj : Nat → List Nat}
         · unfold appendRow; split <;> rfl
         · unfold appendRow; split <;> rfl
         · intro t; unfold appendRow; split <;> exact Iff.rfl
-      exact ⟨_, post, rfl, hR.of_mild hm ((hst.mark krow (fun h => absurd hkp h)).append krow _), SegExt.of_mild hm,
+      exact ⟨_, post, rfl, hR.of_mild hm ((hst.mark krow (fun h => absurd hkp h)).append krow _ hr0 hr1 hkp
+          (by unfold mk2; exact rd_wr_eq (by have := hE.m0; omega) (by have := hst.szMark; omega))
+          (fun hin => hmk (hst.app.rows _ hin).2.2.2)), SegExt.of_mild hm,
         hpost _ (fun _ => rfl) (fun h => absurd hkp h)⟩
     · simp only [hkp, if_false]
       by_cases hdc : disc st (repOf e (rd e.perm_r krow))
@@ -737,7 +814,10 @@ theorem rootStep_spec (hE : EnvOK e L nextl0) {adj : Nat → List Nat}
           · exact Or.inl h
           · right; unfold disc at ht ⊢; rwa [e_rep, rd_wr_ne h] at ht
         have hst1 : StOK e L nextl0 st1 :=
-          { pre := by rw [e_lsub]; exact hst.pre
+          { app := hst.app.congr e_lsub e_nextl (fun r hr => by
+              have := mk2_mark_mono (row := krow) hr
+              unfold mk2 at this ⊢; rw [e_mark]; exact this)
+            pre := by rw [e_lsub]; exact hst.pre
             nextl := by rw [e_nextl]; exact hst.nextl
             szRep := by rw [e_rep, size_wr]; exact hst.szRep
             szPar := by rw [e_par, size_wr]; exact hst.szPar
@@ -793,7 +873,7 @@ theorem rootStep_spec (hE : EnvOK e L nextl0) {adj : Nat → List Nat}
         have hd3 : ∀ t, disc st3 t ↔ disc st2 t := fun t => by unfold disc; rw [e3_rep]
         have hst3 : StOK e L nextl0 st3 := by
           rw [← hst3def]
-          exact { pre := hres2.ok.pre, nextl := hres2.ok.nextl, szRep := hres2.ok.szRep, szPar := hres2.ok.szPar,
+          exact { app := hres2.ok.app.congr rfl rfl (fun _ hh => hh), pre := hres2.ok.pre, nextl := hres2.ok.nextl, szRep := hres2.ok.szRep, szPar := hres2.ok.szPar,
                   szXpl := hres2.ok.szXpl, szMark := hres2.ok.szMark, markRep := hres2.ok.markRep,
                   nseg0 := by have := hres2.ok.nseg0; show 0 ≤ st2.nseg + 1; omega }
         have hpo3 : PostOK e (c :: post2) st3 :=
@@ -963,7 +1043,11 @@ theorem wfIn_root (h : wfIn i = true) :
     constructor
     · rintro ⟨x, y⟩; exact ⟨by omega, y⟩
     · rintro ⟨x, y⟩; exact ⟨by omega, y⟩
-  refine ⟨⟨fun _ _ _ => rfl, le_refl _, b1, b2, b3, a4, ?_, b4⟩, ⟨?_, ?_, ?_, c1⟩, ?_⟩
+  refine ⟨⟨⟨c2, by show (slice i.lsub _ (rd i.xlsub i.jcol)).Nodup; rw [slice_nil]; exact nodup_nil,
+      fun r hr => by
+        have hr' : r ∈ slice i.lsub (rd i.xlsub i.jcol) (rd i.xlsub i.jcol) := hr
+        rw [slice_nil] at hr'; simp at hr',
+      c3⟩, fun _ _ _ => rfl, le_refl _, b1, b2, b3, a4, ?_, b4⟩, ⟨?_, ?_, ?_, c1⟩, ?_⟩
   · intro r r0 r1 hm
     obtain ⟨k, rfl⟩ := Int.eq_ofNat_of_zero_le r0
     exact absurd hm (hmark k r1)
